@@ -64,7 +64,11 @@ func main() {
 
 	jobs := make(chan job, 1024)
 	var wg sync.WaitGroup
-	for w := 0; w < runtime.NumCPU(); w++ {
+	workers := runtime.NumCPU()
+	if workers > 8 {
+		workers = 8 // the machine is shared between several checks
+	}
+	for w := 0; w < workers; w++ {
 		wg.Add(1)
 		go func() {
 			defer wg.Done()
